@@ -1,3 +1,7 @@
 import rg_common
 A = rg_common.pairs()
 PAIRS = [A[k] for k in ("thread_free_collect", "try_use_delayed_free", "free_block_delayed_mt", "queue_append")]
+LEVEL = "other"
+EXPLANATION = ("Rely/guarantee obligations (assertions in hooks of a shadow <stdatomic.h> around the real functions) checked by CBMC with every word, "
+               "flag and interference choice symbolic, but BOUNDED: at most K=2 interference events and one spurious CAS failure per call, remote lists of at most 3 blocks. "
+               "All pairs are bounded stand-ins (label B); nothing here is counted as an unbounded proof. Sequential consistency assumed.")
